@@ -69,6 +69,17 @@ fn ind_decrypt(info: &[u8], pkg: &[u8], pw: &str) -> (String, Option<ind::Decryp
     }
 }
 
+/// what the Lean driver must find on the real EncryptionInfo stream of a `decrypt` line (it computes these itself):
+/// the stream equals the prefix + `renderDoc` of the writer-call tree of the descriptor read from it, the descriptor
+/// satisfies the hypothesis of `C14_info_parses`, and the text scanner agrees with the XML reader
+fn with_info_checks(rep: &str) -> String {
+    if rep == "fail parse" {
+        rep.to_string()
+    } else {
+        format!("{} text=same wf=ok scan=same", rep)
+    }
+}
+
 fn canon_fields(ai: &ind::AgileInfo, info_xml: &str) -> String {
     let kd = ind::start_tag_attrs(info_xml, "keyData").unwrap_or_default();
     let di = ind::start_tag_attrs(info_xml, "dataIntegrity").unwrap_or_default();
@@ -337,10 +348,12 @@ pub fn exec(out: &mut Out, line: &str, emit: (bool, bool)) -> (String, bool, Vec
             if ok {
                 out.oracle_ok();
             }
-            derived.push((format!("c14 decrypt {} {} {} {}", a[3], hexb(&saved.info), hexb(&saved.pkg), expect.replace(' ', ":")), rep.clone()));
+            derived.push((format!("c14 decrypt {} {} {} {}", a[3], hexb(&saved.info), hexb(&saved.pkg), expect.replace(' ', ":")), with_info_checks(&rep)));
+            out.count("info.stream-vs-writer-calls.lines");
             if emit.0 {
-                derived.push((format!("c14 decrypt {} {} {} fail:verifier", hex(&wrong), hexb(&saved.info), hexb(&saved.pkg)), wrep));
-                derived.push((format!("c14 decrypt {} {} {} fail:hmac", a[3], hexb(&saved.info), hexb(&tampered)), trep));
+                derived.push((format!("c14 decrypt {} {} {} fail:verifier", hex(&wrong), hexb(&saved.info), hexb(&saved.pkg)), with_info_checks(&wrep)));
+                derived.push((format!("c14 decrypt {} {} {} fail:hmac", a[3], hexb(&saved.info), hexb(&tampered)), with_info_checks(&trep)));
+                out.count_n("info.stream-vs-writer-calls.lines", 2);
             }
             if emit.1 {
                 if let (Some(d), Some(ai)) = (dec, ai) {
@@ -363,7 +376,7 @@ pub fn exec(out: &mut Out, line: &str, emit: (bool, bool)) -> (String, bool, Vec
             } else {
                 out.oracle_fail(Fail::new("decrypt-differs").with("op", &line[..line.len().min(300)]).with("got", &rep).with("want", &expect));
             }
-            (rep, true, none)
+            (with_info_checks(&rep), true, none)
         }
         "encrypt" if a.len() == 9 => {
             // replay of a derived line: the randoms cannot be forced into `encrypt`, so the streams are
